@@ -133,6 +133,11 @@ def grid(quick):
             for nprobe in (2, 3):
                 cells.append({"api": "root_inv_multi", "n": n, "batch": batch, "fam": "uniform", "size": max(2, n - 1),
                               "dtype": "f64", "jitter": None, "nprobe": nprobe, "start": "random", "nvec": nprobe})
+    # a 1-D initial vector (root_inv_decomposition's argument check lets it through for an operator without batch)
+    for n in ([4, 6] if quick else [3, 4, 6, 9]):
+        for fam in ("uniform", "kappa10"):
+            cells.append({"api": "root_inv_1d", "n": n, "batch": [], "fam": fam, "size": 100, "dtype": "f64", "jitter": None,
+                          "nprobe": 1, "start": "random", "nvec": 1})
     # lanczos_tridiag_to_diag on tridiagonal matrices with negative eigenvalues (the masking branch)
     for k in ([2, 3, 6, 33] if quick else [1, 2, 3, 6, 12, 31, 32, 33, 40]):
         for lead in ([], [2], [3, 2]):
@@ -175,7 +180,7 @@ def build(c):
         A = (A + A.T) / 2
         return {"A": A.reshape(*c["batch"], n, n), "d": [n], "init": None}
     sp = {"n": c["n"], "batch": c["batch"], "nvec": c["nvec"], "fam": c["fam"], "vseed": c["vseed"],
-          "start": "random" if c["api"] == "root_inv_multi" else "none"}
+          "start": "random" if c["api"] in ("root_inv_multi", "root_inv_1d") else "none"}
     d = S.build(sp)
     if c["api"] == "root_inv_multi":
         d["test"] = torch.randn(*c["batch"], c["n"], 4, generator=g, dtype=F64)
@@ -211,6 +216,9 @@ def run_api(c, d):
                 elif c["api"] == "root_inv_multi":
                     iv = d["init"].to(dt)
                     r = op.root_inv_decomposition(initial_vectors=iv, test_vectors=d["test"].to(dt), method="lanczos")
+                    res["inv"] = r.root.to_dense() if hasattr(r.root, "to_dense") else r.root
+                elif c["api"] == "root_inv_1d":
+                    r = op.root_inv_decomposition(initial_vectors=d["init"].to(dt)[:, 0].clone(), method="lanczos")
                     res["inv"] = r.root.to_dense() if hasattr(r.root, "to_dense") else r.root
                 elif c["api"] == "diag":
                     ev, V = op.diagonalization(method="lanczos")
@@ -327,7 +335,7 @@ def judge_api(c, d, r, lanczos_cell, default_jitter=1e-6):
                     fails.append({"fail": "diagonalization-not-compression", "lead": li, "value": e, "tolerance": rt})
             else:
                 worst["diag"] = max(worst.get("diag", 0.0), e / rt)
-        if c["api"] in ("root_inv", "root_inv_multi") and lmin > 1e-3 * lmax and nprobe == 1:
+        if c["api"] in ("root_inv", "root_inv_multi", "root_inv_1d") and lmin > 1e-3 * lmax and nprobe == 1:
             Ri = _lead(r["inv"], n, m)[li]
             kap = lmax / lmin
             tl = (1e-9 if c["dtype"] == "f64" else 1e-4) * kap * 10
@@ -424,7 +432,7 @@ def pcase_lits(c, d, r, flit, fmat_lit, seq_lit, coq_bool, default_jitter=1e-6):
     def nats(xs):
         return seq_lit(["%d" % int(x) for x in xs])
     if n > 1 and m > 1:
-        if c["api"] in ("root", "root_inv"):
+        if c["api"] in ("root", "root_inv", "root_inv_1d"):
             key = "root" if "root" in r else "inv"
             hc.append("MkHCase 0 1 %s %d %d %s [::]" % (nats(c["batch"]), n, m, nats(r[key].shape)))
         elif c["api"] == "diag":
@@ -451,3 +459,39 @@ def pcase_lits(c, d, r, flit, fmat_lit, seq_lit, coq_bool, default_jitter=1e-6):
                 seq_lit([fmat_lit(tvv[b]) for b in range(B)]),
                 seq_lit([flit(x) for x in res]), idx, coq_bool(clear), flit(1e-9)))
     return out, sc, hc
+
+
+# ------------------------------------------------------------------------------------------ api-level argument check
+
+def guard_grid(quick):
+    """(batch, n, initial_vectors.shape) triples for root_inv_decomposition(method="lanczos")"""
+    out = []
+    for batch in ([], [2], [1, 2]) if quick else ([], [2], [1], [1, 2], [2, 3]):
+        for n in (4,) if quick else (3, 4, 7):
+            shapes = [[n], [n + 1], [n, 1], [n, 2], [n + 1, 1], [1, n, 1], [2, n, 1], [3, n, 2], [2, n + 1, 1], [1, 2, n, 1],
+                      [1, 2, n + 1, 2], [2, 1, n, 1], list(batch) + [n, 3], list(batch) + [n - 1, 1], [1] + list(batch) + [n, 1]]
+            seen = []
+            for sh in shapes:
+                if sh not in seen:
+                    seen.append(sh)
+                    out.append((list(batch), n, sh))
+    return out
+
+
+def run_root_inv_guard(batch, n, ivs):
+    """(raised by the argument check?, note): RuntimeError with one of the two messages of lines 2237-2254"""
+    from linear_operator.operators import to_linear_operator
+    g = torch.Generator().manual_seed(1234 + 17 * n + len(batch) + 3 * len(ivs))
+    Bm = torch.randn(*batch, n, n, generator=g, dtype=F64)
+    A = Bm @ Bm.mT + torch.eye(n, dtype=F64)
+    iv = torch.randn(*ivs, generator=g, dtype=F64)
+    try:
+        to_linear_operator(A).root_inv_decomposition(initial_vectors=iv, method="lanczos")
+    except RuntimeError as ex:
+        msg = str(ex)
+        if "cannot be multiplied with initial_vectors" in msg or "should have the same number" in msg:
+            return True, msg[:120]
+        return False, "RuntimeError: " + msg[:120]
+    except Exception as ex:  # noqa
+        return False, "%s: %s" % (type(ex).__name__, str(ex)[:120])
+    return False, "returned"
